@@ -87,13 +87,15 @@ class _Watchdog(threading.Thread):
             time.sleep(1.0)
 
 
-def discover_unwindset(stage_dir, harness, spec, stub, log_path=None):
+def discover_unwindset(stage_dir, harness, spec, stub, log_path=None, target_dir=None):
     """spec: "<function-substring>:<b1>,<b2>,..;<function-substring>:..." -- per-loop
     unwind bounds for the loops of a function, in source-line order.  CBMC loop names
     contain a per-build crate hash, so they are looked up in the compiled goto binary.
     Unwinding assertions stay on: a wrong bound can only make the run inconclusive."""
     import glob
     cmd = ["cargo", "kani", "--only-codegen", "--exact", "--harness", harness.fq]
+    if target_dir:
+        cmd += ["--target-dir", target_dir]
     if stub:
         cmd += ["-Z", "stubbing"]
     env = dict(os.environ)
@@ -102,7 +104,8 @@ def discover_unwindset(stage_dir, harness, spec, stub, log_path=None):
     if log_path:
         with open(log_path, "a") as fh:
             fh.write("$ " + " ".join(cmd) + "\n" + p.stdout[-2000:] + p.stderr[-4000:] + "\n")
-    outs = [f for f in glob.glob(os.path.join(stage_dir, "target", "kani", "*", "debug", "build", "*", "*", "out", "*%s.out" % harness.name))
+    tdir = target_dir or os.path.join(stage_dir, "target")
+    outs = [f for f in glob.glob(os.path.join(tdir, "kani", "*", "debug", "build", "*", "*", "out", "*%s.out" % harness.name))
             if not f.endswith(".symtab.out")]
     if not outs:
         raise BuildError("codegen produced no goto binary for %s\n%s" % (harness.fq, (p.stdout + p.stderr)[-3000:]))
@@ -135,9 +138,9 @@ def discover_unwindset(stage_dir, harness, spec, stub, log_path=None):
 
 
 def run_group(stage_dir, harnesses, jobs=16, timeout_s=300, stub=False, cbmc_args="",
-              solver="", mem_cap_gb=12, log_path=None, playback=None, tag="g", unwindset=""):
+              solver="", mem_cap_gb=12, log_path=None, playback=None, tag="g", unwindset="", target_dir=None):
     if unwindset:
-        us = discover_unwindset(stage_dir, harnesses[0], unwindset, stub, log_path)
+        us = discover_unwindset(stage_dir, harnesses[0], unwindset, stub, log_path, target_dir)
         if us:
             cbmc_args = (cbmc_args + " --unwindset " + us).strip()
     """harnesses: list of meta.Harness.  Returns dict name -> result dict.
@@ -148,6 +151,8 @@ def run_group(stage_dir, harnesses, jobs=16, timeout_s=300, stub=False, cbmc_arg
         os.remove(out_json)
     cmd = ["cargo", "kani", "--output-format", "terse", "-Z", "unstable-options",
            "--harness-timeout", "%ds" % timeout_s, "--export-json", out_json, "--exact"]
+    if target_dir:
+        cmd += ["--target-dir", target_dir]
     if jobs and jobs > 1 and len(harnesses) > 1:
         cmd += ["-j", str(min(jobs, len(harnesses)))]
     if stub:
